@@ -39,6 +39,13 @@ def obligations(tier):
     obls.append(CH("factory_unchanged_by_failed_construction", H, "factory_after_failure", t, mode="E1s", functions=["stix2.environment.ObjectFactory.create"] + F[:1],
                    bounds="every junk value as external_references / object_marking_refs / created_by_ref through an ObjectFactory and an Environment whose defaults are lists: "
                           "family error or success, and the next valid construction equals the one before"))
+    for p in range(8):
+        obls.append(CH("two_slots_in_relation_p%d" % p, H, "slot_relations", t, mode="E1s", functions=F, env={"VERIF_PART": str(p)},
+                       bounds="classes with index %% 8 == %d of all SDO/SRO/SCO classes of both versions (2.0 observables included) x every ordered pair of timestamp slots (earlier/later/equal) and of integer slots x 2-4 routes x allow_custom" % p))
+    obls.append(CH("stores_unchanged_by_refused_additions", H, "store_refusals", t, mode="E1s", functions=["stix2.datastore.memory._add", "stix2.datastore.memory._ObjectFamily.add"],
+                   bounds="21 junk additions (no type, no id, junk modified, non-objects, nested lists, bundles of junk) x store / sink / environment / source constructor x allow_custom x empty or preloaded store; state compared before/after and still printable"))
+    obls.append(CH("versioning_refusals_are_library_errors", H, "versioning_refusals", t, mode="E1s", functions=["stix2.versioning.new_version", "stix2.versioning.revoke"],
+                   bounds="23 change sets of every JSON kind naming present and absent properties (unmodifiable ones, modified, custom_properties, flags) x object / dictionary x 2.1 / 2.0 x new_version / revoke"))
     obls.append(CH("plain_python_subclasses", H, "plain_subclass", t, mode="E1s", functions=F + ["stix2.v21.sro.Relationship._check_object_constraints", "stix2.v21.sro.Sighting._check_object_constraints"],
                    bounds="an empty Python subclass of every buildable registered class (both versions): builds from the base's arguments to the same text, and with each of 43 junk values "
                           "in one argument raises only from the family (no RecursionError from super() through self.__class__)"))
